@@ -1,12 +1,15 @@
 """C08 approximate solution methods agree with the exact (path-ordered) one to the working order.
 
 For every (sector, order n, nf, gamma tower, base coupling pair) both couplings are scaled together by
-lambda = 1, 1/2, ..., 1/256 and  D(lambda) = max|approximate kernel - exact solution|  is measured against
+lambda = 1, 1/2, ..., 1/512 and  D(lambda) = max|approximate kernel - exact solution|  is measured against
 the 40-digit ODE reference (vf/ref/c07_ode.py; scalar for the non-singlet, path-ordered 2x2 for the
 singlet).  The local exponents log2(D_i/D_{i+1}) in the asymptotic window must be >= n - 0.25.
 """
 
+import hashlib
+import json
 import math
+import os
 
 import numpy as np
 
@@ -19,7 +22,7 @@ TECHNIQUE = "exhaustive lattice; scaling exponent of (approximate - exact) again
 LEVEL_TEXT = (
     "on every point of the finite lattice (order 2-4, nf 3-6, fixed complex towers, base coupling pairs, all "
     "approximate methods incl. every perturbative configuration listed) the difference to the exact solution "
-    "scales at least like a^n in the asymptotic window reached by halving both couplings down to 1/256; "
+    "scales at least like a^n in the asymptotic window reached by halving both couplings down to 1/512; "
     "nothing is claimed off the lattice"
 )
 LEVEL_NOTE = (
@@ -31,7 +34,7 @@ FLOOR_NONTRIVIAL = 50
 FLOOR = 1e-13  # residual treated as zero (double-precision noise of an O(1) kernel)
 SLACK = 0.25
 WINDOW = 0.1
-LAMBDAS = [2.0**-i for i in range(9)]  # 1 .. 1/256
+LAMBDAS = [2.0**-i for i in range(10)]  # 1 .. 1/512
 NFS = [3, 4, 5, 6]
 LA = [0.002, 0.005, 0.0125, 0.03, 0.05]
 
@@ -153,6 +156,33 @@ def _s_methods(EvoMethods, n, commuting):
     return out
 
 
+def _reference(sector, ti, tower, n, nf, a0, a1):
+    key = hashlib.sha1(json.dumps([sector, ti, tower, n, nf, a0, a1]).encode()).hexdigest()
+    d = os.environ.get("VERIF_SCRATCH_DIR")
+    path = os.path.join(d, "c08refs", key + ".json") if d else None
+    if path and os.path.exists(path):
+        try:
+            v = json.loads(open(path).read())
+            return np.array([complex(x[0], x[1]) for x in v["flat"]]).reshape(v["shape"])
+        except Exception:  # noqa  (torn file: recompute)
+            pass
+    if sector == "ns":
+        out = np.array(complex(R.ns_exact_ode(tower, n, nf, a0, a1)))
+    else:
+        e = R.singlet_exact_ode(tower, n, nf, a0, a1)
+        out = np.array([[complex(x) for x in row] for row in e])
+    if path:
+        try:
+            os.makedirs(os.path.dirname(path), exist_ok=True)
+            tmp = f"{path}.{os.getpid()}.tmp"
+            with open(tmp, "w") as fh:
+                fh.write(json.dumps({"shape": list(out.shape), "flat": [[float(z.real), float(z.imag)] for z in out.reshape(-1)]}))
+            os.replace(tmp, path)
+        except OSError:
+            pass
+    return out
+
+
 def evaluate(case):
     from eko.kernels import EvoMethods
     from eko.kernels import non_singlet as ns
@@ -172,17 +202,15 @@ def evaluate(case):
         tower = (S_COMM if commuting else S_NONCOMM)[case["tower"]]
         g = np.array([[[R.to_c(z) for z in row] for row in m] for m in tower[:n]], dtype=np.complex128)
         methods = _s_methods(EvoMethods, n, commuting)
-    # exact references at every lambda
+    # exact references at every lambda (memoised in the run's scratch directory: the harness re-runs every
+    # failing case once in the parent process, and the 40-digit references are the expensive part)
     refs = []
     for lam in LAMBDAS:
         a0, a1 = a0b * lam, a1b * lam
-        if sector == "ns":
-            refs.append((a0, a1, np.array(complex(R.ns_exact_ode(tower, n, nf, a0, a1)))))
-        else:
-            e = R.singlet_exact_ode(tower, n, nf, a0, a1)
-            refs.append((a0, a1, np.array([[complex(x) for x in row] for row in e])))
+        refs.append((a0, a1, _reference(sector, case["tower"], tower, n, nf, a0, a1)))
     verdicts = {}
     shortfall = -10.0
+    worst = ""
     decided = 0
     for kern, meth, conf in methods:
         ds = []
@@ -204,7 +232,7 @@ def evaluate(case):
         sig = f"{mod}.{kname}/order={n}"
         where = (
             f"method={meth.name} conf(it,max_order)={conf} nf={nf} sector={sector} tower={case['tower']} base pair a0={a0b} a1={a1b}: "
-            f"residuals at lambda=1..1/256 = {['%.3e' % d if d is not None else None for d in ds]}, local exponents = {['%.2f' % x for x in exps]}"
+            f"residuals at lambda=1..1/512 = {['%.3e' % d if d is not None else None for d in ds]}, local exponents = {['%.2f' % x for x in exps]}"
         )
         if v == "FAIL-nonfinite":
             res.fail(sig + "/nonfinite", (err or "nan/inf") + " " + where)
@@ -212,11 +240,12 @@ def evaluate(case):
             res.fail(sig, f"difference to the exact solution scales like a^{exps[-1]:.2f} < a^{n}: " + where)
         if v in ("ok", "FAIL"):
             decided += 1
-        if v == "ok":
-            shortfall = max(shortfall, n - min(exps[-2:]))
+        if v == "ok" and n - min(exps[-2:]) > shortfall:
+            shortfall = n - min(exps[-2:])
+            worst = f"{sig} method={meth.name} conf={conf} nf={nf} sector={sector} tower={case['tower']} pair={case['pair']} exps={['%.2f' % x for x in exps]}"
         key = f"{kname}:{v}"
         verdicts[key] = verdicts.get(key, 0) + 1
-    res.info = {"max_exponent_shortfall_of_passing": shortfall, "decided": decided, "verdicts": verdicts}
+    res.info = {"max_exponent_shortfall_of_passing": shortfall, "worst_passing": worst, "decided": decided, "verdicts": verdicts}
     classes = sorted({k.split(":")[1] for k in verdicts})
     res.outcome = f"{sector}:" + ",".join(classes)
     res.nontrivial = decided > 0
@@ -228,8 +257,8 @@ def _pairs(thorough, sector):
     if thorough:
         return allp if sector == "ns" else [p for p in allp if max(p) >= 0.03]
     if sector == "ns":
-        return [p for p in allp if max(p) >= 0.05]
-    return [[0.0125, 0.05], [0.05, 0.0125], [0.002, 0.05], [0.05, 0.03]]
+        return [[0.0125, 0.05], [0.05, 0.0125], [0.002, 0.05], [0.05, 0.03]]
+    return [[0.0125, 0.05], [0.05, 0.0125], [0.002, 0.05]]
 
 
 def run(ctx):
@@ -251,14 +280,15 @@ def run(ctx):
     for _, out in results:
         for k, v in ((out[3] or {}).get("verdicts") or {}).items():
             tot[k] = tot.get(k, 0) + v
-    ctx.extra.update(verdicts_per_kernel=tot)
+    wl = sorted(((out[3] or {}).get("max_exponent_shortfall_of_passing", -10), (out[3] or {}).get("worst_passing", "")) for _, out in results)
+    ctx.extra.update(verdicts_per_kernel=tot, closest_passing=[f"{a:.3f} {b}" for a, b in wl[-3:]])
     ctx.rule = (
         "complete product order 2-4 x nf 3-6 x towers x base coupling pairs; NS: 6 complex towers, methods "
         "{iterate,decompose,perturbative}-expanded, truncated, ordered-truncated; singlet: non-commuting complex 2x2 towers "
         "with truncated, ordered-truncated, perturbative-exact/-expanded at (iterations, ev_op_max_order) in "
         "{(1,n),(4,n),(1,n+1),(1,10)}; commuting towers (one diagonal, one polynomial in a full matrix) additionally "
-        "with decompose-exact/-expanded. Each case is scaled by lambda=2^0..2^-8 (9 exact references per case). "
-        f"Base pairs: ordered pairs of {LA} (quick: the 8 containing 0.05 for NS, 4 for the singlet; thorough: all 20 for NS, the 14 reaching 0.03 for the singlet). "
+        "with decompose-exact/-expanded. Each case is scaled by lambda=2^0..2^-9 (10 exact references per case). "
+        f"Base pairs: ordered pairs of {LA} (quick: 4 for NS - ratio 4 up/down, 25 up, 0.6 down - and the first 3 of them for the singlet; thorough: all 20 for NS, the 14 reaching 0.03 for the singlet). "
         "A (case, method) is decided when two local exponents exist above the 1e-13 noise floor; non-trivial = "
         "at least one method decided"
     )
